@@ -733,7 +733,7 @@ pub fn programs(tier: &str) -> Vec<(Program, Option<usize>)> {
     }
     // transactions on the same key / same content with staging/ calls visible (C13: "a concurrent transaction on the same key is unaffected")
     for (a, b) in [(w(0, C_X), w(0, C_Y)), (w(0, C_X), TOp::Abort { k: 0, c: C_Y }), (TOp::Abort { k: 0, c: C_Y }, TOp::Abort { k: 0, c: C_Y }), (w(0, C_Y), w(1, C_Y))] {
-        v.push((Program { cfg: big, init: Init::A, threads: vec![vec![a], vec![b]], vis: 1 }, if tier == "quick" { Some(3) } else { None }));
+        v.push((Program { cfg: big, init: Init::A, threads: vec![vec![a], vec![b]], vis: 1 }, if tier == "quick" { Some(3) } else { Some(5) }));
     }
     // four actors (thorough): two writers on the same key/content, a remover and a reader or clean-up
     if tier != "quick" {
